@@ -66,6 +66,7 @@ impl Prop for C19 {
         let wc = WriteCfg {
             short_pm: if rng.chance(3, 4) { rng.range(100, 900) } else { 0 },
             pending_pm: if rng.chance(7, 8) { rng.range(200, 900) } else { 0 },
+            stall_pm: if rng.chance(1, 4) { rng.range(20, 200) } else { 0 },
         };
         let n_wev = rng.usize(4, 120);
         let writes = gen::gen_writes(rng, n_wev, &wc);
@@ -117,6 +118,8 @@ impl Prop for C19 {
             explicit_gate: true,
             flushes,
             buffered,
+            gate_calls: vec![],
+            trace: false,
             inbound,
             reads,
             writes,
